@@ -206,6 +206,92 @@ def claim_datum_list_iter(cx, res, kf):
         res.vacuity.append(("ListIter::next from state %s" % k, n > 0))
 
 
+def claim_datum_list_iter_peek(cx, res, kf):
+    """datum::ListIter::peek / is_empty from any of the 4 cursor states: peek is what next would yield WITHOUT advancing - the car
+    with the car's span information at a cell, None at the dot marker, the tail with its information after the marker, None when
+    exhausted; is_empty exactly when exhausted."""
+    VAL = cx.enums["Value"]
+    LC = cx.enums["ListCursor"]
+    onm = walk_replay(res)
+
+    def find(name):
+        for n, f in cx.fns.items():
+            if "lexpr/src/datum.rs" in n and n.endswith("::" + name) and "ListIter" in f.local_ty.get(f.args[0], ""):
+                return n, f
+        return None, None
+    for name in ("peek", "is_empty"):
+        key, fn = find(name)
+        if fn is None:
+            res.error = "datum::ListIter::%s not found" % name
+            return
+        eng = C.make_engine(cx, [], loop_mode="cut", timeout_s=60, max_paths=500)
+        info = {}
+
+        def h_car(e, st, fr, callee, argv, m):
+            return Ref(("V", Opaque("Value", "the %s of the cell" % m.group(1))))
+        eng.stubs = [(re.compile(r"^Cons::(car|cdr)$"), h_car)] + S.COMBINATOR_STUBS + S.CORE_STUBS
+
+        def init(e, st, fr, fn=fn):
+            st.heap["meta"] = Agg("array", "[SpanInfo; 2]", [Opaque("SpanInfo", "slot 0"), Opaque("SpanInfo", "slot 1")])
+            d = z3.BitVec("cursor_kind", 64)
+            cur = EnumV("ListCursor", d, {LC.index("Cons"): [Ref(("V", Opaque("Cons", "the cell"))), Ref(("H", "meta"))],
+                                          LC.index("Dot"): [Ref(("V", Opaque("Value", "the tail"))), Ref(("V", Opaque("SpanInfo", "tail info")))],
+                                          LC.index("Rest"): [Ref(("V", Opaque("Value", "the tail"))), Ref(("V", Opaque("SpanInfo", "tail info")))],
+                                          LC.index("Exhausted"): []})
+            st.heap["it"] = Agg("struct", "ListIter", [cur])
+            fr.locals[fn.args[0]] = Ref(("H", "it"))
+            info["d"] = d
+            return [z3.ULT(d, bv(len(LC)))]
+        try:
+            terms = eng.explore(key, init)
+        except Unsupported as e:
+            res.error = "unsupported: datum::ListIter::%s: %s" % (name, e)
+            return
+        res.absorb(eng)
+        d = info["d"]
+        n_paths = 0
+
+        def lab(st, x):
+            while isinstance(x, Ref):
+                x = eng.load(st, x.addr)
+            return getattr(x, "label", repr(x))
+        for t in terms:
+            pc = list(t.state.pc)
+            if t.kind != "RETURN":
+                res.must_be_unsat(pc, "datum::ListIter::%s: ends in %s" % (name, t.kind), onm)
+                continue
+            it_after = t.state.heap.get("it")
+            cur_after = it_after.fields[0] if isinstance(it_after, Agg) else None
+            if not (isinstance(cur_after, EnumV) and z3.eq(z3.simplify(cur_after.discr), z3.simplify(d))):
+                res.must_be_unsat(pc, "datum::ListIter::%s moves the cursor" % name, onm)
+            n_paths += 1
+            if name == "is_empty":
+                rv = t.value
+                res.must_be_unsat(pc + [rv.e != (d == LC.index("Exhausted"))], "datum::ListIter::is_empty is not `exhausted`", onm)
+                continue
+            rv = t.value
+            dd = K.concrete(rv.discr) if isinstance(rv, EnumV) else None
+            if dd is None:
+                res.must_be_unsat(pc, "datum::ListIter::peek returns %r" % (rv,), onm)
+                continue
+            if dd == 0:
+                res.must_be_unsat(pc + [z3.Not(z3.Or(d == LC.index("Dot"), d == LC.index("Exhausted")))],
+                                  "datum::ListIter::peek is None although an element / the tail is next", onm)
+            else:
+                r = rv.variants[1][0]
+                got = (lab(t.state, r.fields[0]), lab(t.state, r.fields[1])) if isinstance(r, Agg) and len(r.fields) == 2 else (repr(r), "")
+                at_cell = got == ("the car of the cell", "slot 0")
+                at_rest = got == ("the tail", "tail info")
+                if not (at_cell or at_rest):
+                    res.must_be_unsat(pc, "datum::ListIter::peek yields %r" % (got,), onm)
+                elif at_cell:
+                    res.must_be_unsat(pc + [d != LC.index("Cons")], "datum::ListIter::peek yields a car although the cursor is not at a cell", onm)
+                else:
+                    res.must_be_unsat(pc + [d != LC.index("Rest")], "datum::ListIter::peek yields the tail at the dot marker (next() yields None there first) "
+                                      "or in another state", onm)
+        res.vacuity.append(("datum::ListIter::%s paths" % name, n_paths >= (4 if name == "peek" else 2)))
+
+
 def claim_ref_list_iter(cx, res, kf):
     """Ref::list_iter (and Datum::list_iter through it): an iterator exactly for pairs and the empty list - what
     Value::list_iter answers for the same value - and None for everything else (#nil, atoms, vectors)."""
@@ -265,6 +351,136 @@ def claim_ref_list_iter(cx, res, kf):
             res.must_be_unsat(pc + [z3.Or(is_pair, is_null)], "the datum list accessor refuses a pair / the empty list", onm)
     for k, c in n.items():
         res.vacuity.append(("Ref::list_iter returns %s" % k, c > 0))
+
+
+def claim_ref_pair_vector(cx, res, kf):
+    """Ref::as_pair / Ref::vector_iter: the two fields of a pair each with ITS span information (car with slot 0, cdr with slot 1);
+    an iterator pairing the elements with the element span information, in order, exactly for vectors; None for every other
+    value; no panic on span information shaped as the constructors shape it."""
+    SI = cx.enums["SpanInfo"]
+    VAL = cx.enums["Value"]
+    onm = walk_replay(res)
+    from . import confirm as CF
+    onm2 = CF.confirm(("spans",), res)
+
+    def both(m=None):
+        r = onm(m)
+        return r if r.get("replayed") else onm2(m)
+
+    def find(name):
+        for n, f in cx.fns.items():
+            if "lexpr/src/datum.rs" in n and n.endswith("::" + name) and "Ref" in f.local_ty.get(f.args[0], ""):
+                return f
+        return None
+    for name in ("as_pair", "vector_iter"):
+        fn = find(name)
+        if fn is None:
+            res.error = "Ref::%s not found" % name
+            return
+        eng = C.make_engine(cx, [], loop_mode="cut", timeout_s=60, max_paths=2000)
+        info = {}
+
+        def h_value_as_pair(e, st, fr, callee, argv, m):
+            v = argv[0]
+            while isinstance(v, Ref):
+                v = e.load(st, v.addr)
+            st.events.append(("value.as_pair",))
+            is_pair = v.discr == VAL.index("Cons")
+            return EnumV("Option", z3.If(is_pair, bv(1), bv(0)), {1: [Agg("tuple", None, [Ref(("V", Opaque("Value", "the car"))), Ref(("V", Opaque("Value", "the cdr")))])], 0: []})
+
+        def h_len(e, st, fr, callee, argv, m):
+            return Int(info["meta_len"], "usize")
+
+        def h_index(e, st, fr, callee, argv, m):
+            i = argv[1]
+            c = K.concrete(i.e) if isinstance(i, Int) else None
+            st.events.append(("meta_index", c))
+            return Ref(("V", Opaque("SpanInfo", "slot %r" % (c,))))
+
+        def h_ref_new(e, st, fr, callee, argv, m):
+            def lab(x):
+                while isinstance(x, Ref):
+                    x = e.load(st, x.addr)
+                return getattr(x, "label", repr(x))
+            st.events.append(("ref_new", lab(argv[0]), lab(argv[1])))
+            return Opaque("Ref", "ref(%s | %s)" % (lab(argv[0]), lab(argv[1])))
+
+        def h_iter(e, st, fr, callee, argv, m):
+            x = argv[0]
+            while isinstance(x, Ref):
+                x = e.load(st, x.addr)
+            return Opaque("Iter", "iter over %s" % getattr(x, "label", repr(x)))
+
+        def h_zip(e, st, fr, callee, argv, m):
+            def lab(x):
+                while isinstance(x, Ref):
+                    x = e.load(st, x.addr)
+                return getattr(x, "label", repr(x))
+            st.events.append(("zip", lab(argv[0]), lab(argv[1])))
+            return Opaque("Zip", "zip")
+        eng.stubs = [(re.compile(r"^Value::as_pair$"), h_value_as_pair),
+                     (re.compile(r"^(?:core::slice::<impl \[SpanInfo\]>|<\[SpanInfo\]>)::len$|^<Box<\[SpanInfo; 2\]> as Deref>::deref$"), h_len),
+                     (re.compile(r"^(?:datum::)?Ref::(?:<'_>::)?new$"), h_ref_new),
+                     (re.compile(r"^core::slice::<impl \[Value\]>::iter$"), h_iter),
+                     (re.compile(r"^<std::slice::Iter<'_, Value> as Iterator>::zip::<"), h_zip),
+                     ] + S.COMBINATOR_STUBS + S.CORE_STUBS
+
+        def init(e, st, fr):
+            v = sym_value(cx, e, st, "v", 0)
+            v.variants[VAL.index("Cons")] = [Opaque("Cons", "the cell", {})]
+            st.heap["elems"] = Opaque("[Value]", "the elements", {})
+            v.variants[VAL.index("Vector")] = [Agg("struct", "Box", [Agg("struct", "Unique", [Ref(("H", "elems"))]), UnitV()])]
+            kd = z3.BitVec("info_kind", 64)
+            st.heap["metaarr"] = Agg("array", "[SpanInfo; 2]", [Opaque("SpanInfo", "slot 0"), Opaque("SpanInfo", "slot 1")])
+            box = Agg("struct", "Box", [Agg("struct", "Unique", [Ref(("H", "metaarr"))]), UnitV()])
+            inf = EnumV("SpanInfo", kd, {SI.index("Prim"): [Blob("span")], SI.index("Cons"): [Blob("span"), box],
+                                         SI.index("Vec"): [Blob("span"), Opaque("Vec<SpanInfo>", "element infos", {})]})
+            st.heap["ref"] = Agg("struct", "Ref", [Ref(("V", v)), Ref(("V", inf))])
+            fr.locals[fn.args[0]] = Ref(("H", "ref"))
+            info.update(v=v, kd=kd, meta_len=bv(2))
+            return [z3.ULT(kd, bv(len(SI))), (kd == SI.index("Cons")) == (v.discr == VAL.index("Cons")), (kd == SI.index("Vec")) == (v.discr == VAL.index("Vector"))]
+        try:
+            terms = eng.explore(fn.name, init)
+        except Unsupported as e:
+            res.error = "unsupported: Ref::%s: %s" % (name, e)
+            return
+        res.absorb(eng)
+        v = info["v"]
+        want = v.discr == VAL.index("Cons" if name == "as_pair" else "Vector")
+        n = {"some": 0, "none": 0}
+        for t in terms:
+            pc = list(t.state.pc)
+            if t.kind == "PANIC":
+                res.must_be_unsat(pc, "Ref::%s: reachable panic `%s` on span information of the constructors' shape" % (name, t.info.get("msg")), both)
+                continue
+            if t.kind != "RETURN" or not isinstance(t.value, EnumV):
+                res.must_be_unsat(pc, "Ref::%s: ends in %s" % (name, t.kind), both)
+                continue
+            d = K.concrete(t.value.discr)
+            if d is None:
+                r1, _ = res.solve(pc + [t.value.discr == 1, z3.Not(want)])
+                r0, _ = res.solve(pc + [t.value.discr != 1, want])
+                if r1 == z3.sat or r0 == z3.sat:
+                    res.must_be_unsat(pc + [(t.value.discr == 1) != want], "Ref::%s answers Some / None for the wrong kind of value" % name, both)
+                continue
+            if d == 1:
+                n["some"] += 1
+                res.must_be_unsat(pc + [z3.Not(want)], "Ref::%s gives a result for a value of another kind" % name, both)
+                ev = t.state.events
+                if name == "as_pair":
+                    refs = [e_ for e_ in ev if e_[0] == "ref_new"]
+                    got = [(e_[1], e_[2]) for e_ in refs]
+                    if got != [("the car", "slot 0"), ("the cdr", "slot 1")]:
+                        res.must_be_unsat(pc, "Ref::as_pair pairs %r, expected the car with slot 0 and the cdr with slot 1 of the span information" % (got,), both)
+                else:
+                    z = [e_ for e_ in ev if e_[0] == "zip"]
+                    if len(z) != 1 or z[0][1:] != ("iter over the elements", "element infos"):
+                        res.must_be_unsat(pc, "Ref::vector_iter does not pair the elements with the element span information in order (%r)" % (z,), both)
+            else:
+                n["none"] += 1
+                res.must_be_unsat(pc + [want], "Ref::%s refuses a %s" % (name, "pair" if name == "as_pair" else "vector"), both)
+        for k, c in n.items():
+            res.vacuity.append(("Ref::%s returns %s" % (name, k), c > 0))
 
 
 def claim_datum_constructors(cx, res, kf):
@@ -456,10 +672,20 @@ CLAIMS = [
           "then continues with the cdr's cell (pair), ends (empty list) or pauses with None and yields the tail once (anything "
           "else, #nil included) - the structure the value's own accessors expose; no panic on span information shaped by the builders",
           "arbitrary car / cdr kinds, all 4 cursor states (one-step induction over any list length)", configs=("fast",)),
+    Claim("c10_datum_list_iter_peek", "C10", "quick", claim_datum_list_iter_peek,
+          "datum::ListIter::peek / is_empty from any cursor state: peek is what next would yield, without advancing (car with the car's "
+          "span information at a cell, None at the dot marker, the tail with its information after it, None when exhausted); is_empty "
+          "exactly when exhausted - as the value's own list iterator answers",
+          "all 4 cursor states, abstract cell and span information", configs=("fast",), confirm=("spans",)),
     Claim("c10_ref_list_iter", "C10", "quick", claim_ref_list_iter,
           "Ref::list_iter gives an iterator exactly for pairs (starting at the pair) and the empty list (already exhausted) and None "
           "for every other value, #nil included - as Value::list_iter does for the same value",
           "arbitrary value kind with span information of the constructors' shape", configs=("fast",)),
+    Claim("c10_ref_pair_vector", "C10", "quick", claim_ref_pair_vector,
+          "Ref::as_pair gives (car with span slot 0, cdr with span slot 1) exactly for pairs, Ref::vector_iter pairs the elements with "
+          "the element span information in order exactly for vectors; None for every other kind; no panic on span information of "
+          "the constructors' shape",
+          "arbitrary value kind with span information of the constructors' shape", configs=("fast",), also=("C11",)),
     Claim("c10_datum_constructors", "C10", "quick", claim_datum_constructors,
           "Datum::primitive / vec / cons / quotation pair the given value with span information of the same shape and the given "
           "positions: Prim; Vec with the element infos; Cons over the given (car, cdr) infos; for quote shorthands the list "
